@@ -40,6 +40,27 @@ class TermError(Exception):
     pass
 
 
+_PARSE_CACHE: dict = {}
+
+
+def parse_expr(code: str) -> ast.Expression:
+    """Parsed (and cached: the trees are never mutated) generated expression."""
+    src = code.strip()
+    hit = _PARSE_CACHE.get(src)
+    if hit is None:
+        try:
+            hit = ast.parse('(\n' + src + '\n)', mode='eval')
+        except SyntaxError as ex:
+            hit = TermError(f'generated code is not an expression: {ex.msg} (line {ex.lineno}): '
+                            f'{(ex.text or "").strip()[:80]}')
+        if len(_PARSE_CACHE) > 20000:
+            _PARSE_CACHE.clear()
+        _PARSE_CACHE[src] = hit
+    if isinstance(hit, TermError):
+        raise hit
+    return hit
+
+
 class Terms:
     def __init__(self, scope_key=None, pith_prefix: str = PITH_PREFIX_DEFAULT, root: str | None = None,
                  extra_bound: dict | None = None):
@@ -53,12 +74,7 @@ class Terms:
 
     # ------------------------------------------------------------------
     def of(self, code: str):
-        src = code.strip()
-        try:
-            tree = ast.parse('(\n' + src + '\n)', mode='eval')
-        except SyntaxError as ex:
-            raise TermError(f'generated code is not an expression: {ex.msg} (line {ex.lineno}): '
-                            f'{(ex.text or "").strip()[:80]}')
+        tree = parse_expr(code)
         env = {self.root: ('root',)}
         env.update(self.extra_bound)
         t, self.final_env = self.ev(tree.body, env)
